@@ -237,6 +237,8 @@ class SArr(_np.ndarray):
         return self._reduce_axis(rmin, axis)
 
     def mean(self, axis=None, **kw):
+        if sym.have_ctx():  # observation point for harnesses (e.g. the raw density totals before normalisation)
+            sym.ctx().notes.setdefault("mean_inputs", []).append(self.view(_np.ndarray).copy())
         n = self.size if axis is None else self.shape[axis]
         return self.sum(axis=axis) / n
 
@@ -392,7 +394,7 @@ _BINARY = {
     _np.bitwise_and: lambda a, b: sym.as_symbool(a) & sym.as_symbool(b),
     _np.bitwise_or: lambda a, b: sym.as_symbool(a) | sym.as_symbool(b),
     _np.power: lambda a, b: R(a) ** (b if isinstance(b, (int, _np.integer)) else R(b)),
-    _np.arctan2: lambda y, x: sym.ctx().ufs.generic("arctan2", y, x),
+    _np.arctan2: lambda y, x: sym.ctx().ufs.arctan2(y, x),
 }
 _BINARY.update(_CMP)
 
@@ -680,7 +682,7 @@ class NpProxy:
         self._linalg_overrides = overrides.pop("linalg", {}) if "linalg" in overrides else {}
         self.linalg = _LinalgProxy(self)
         self.random = overrides.pop("random", _real_np.random)
-        self.ma = _real_np.ma
+        self.ma = MaProxy()
 
     # ---- constructors
     def zeros(self, shape, dtype=None, **kw):
@@ -733,7 +735,7 @@ class NpProxy:
         return sarr(obj)
 
     def asarray(self, obj, dtype=None, **kw):
-        if isinstance(obj, SArr):
+        if isinstance(obj, SArr) or hasattr(obj, "_symbolic_shape"):
             return obj
         if has_sym(obj):
             return sarr(obj)
@@ -788,6 +790,8 @@ class NpProxy:
     absolute = abs
 
     def sqrt(self, x):
+        if isinstance(x, SymMasked):
+            return x.sqrt()
         if sym._is_num(x) and not isinstance(x, (bool,)) and sym.have_ctx():
             fr = sym.to_fraction(x)
             if isinstance(fr, Fraction) and fr >= 0:
@@ -823,7 +827,9 @@ class NpProxy:
 
     def arctan2(self, y, x):
         if isinstance(y, R) or isinstance(x, R):
-            return sym.ctx().ufs.generic("arctan2", y, x)
+            return sym.ctx().ufs.arctan2(y, x)
+        if has_sym(y) or has_sym(x):
+            return _np.arctan2(sarr(y, copy=False), sarr(x, copy=False))
         return _real_np.arctan2(y, x)
 
     def clip(self, a, a_min=None, a_max=None, **kw):
@@ -951,3 +957,81 @@ class patched:
 
 
 _MISSING = object()
+
+
+# ---------------------------------------------------------------------------------------
+# minimal numpy.ma stand-in (masked_where / arithmetic / sqrt / filled) for symbolic data
+
+
+class SymMasked:
+    """Masked array with a *concrete* mask (each condition is decided by a fork) and symbolic data.
+    Semantics kept: operations act on the unmasked cells only; filled() puts fill_value in masked cells."""
+
+    def __init__(self, data, mask, fill_value=None):
+        self.data = _np.asarray(_plain(sarr(data, copy=False)), dtype=object)
+        self.mask = _np.asarray(mask, dtype=bool)
+        self.fill_value = fill_value
+
+    def _un(self, f):
+        out = _np.empty(self.data.shape, dtype=object)
+        for i in _np.ndindex(self.data.shape):
+            out[i] = None if self.mask[i] else f(self.data[i])
+        return SymMasked(out, self.mask, self.fill_value)
+
+    def _bin(self, o, f):
+        if isinstance(o, SymMasked):
+            mask = self.mask | o.mask
+            od = o.data
+        else:
+            mask = self.mask
+            od = _np.broadcast_to(_np.asarray(_plain(sarr(o, copy=False)), dtype=object), self.data.shape)
+        out = _np.empty(self.data.shape, dtype=object)
+        for i in _np.ndindex(self.data.shape):
+            out[i] = None if mask[i] else f(self.data[i], od[i])
+        return SymMasked(out, mask, self.fill_value)
+
+    def __pow__(self, e):
+        return self._un(lambda a: a**e)
+
+    def __add__(self, o):
+        return self._bin(o, lambda a, b: a + b)
+
+    __radd__ = __add__
+
+    def __mul__(self, o):
+        return self._bin(o, lambda a, b: a * b)
+
+    __rmul__ = __mul__
+
+    def __truediv__(self, o):
+        return self._bin(o, lambda a, b: a / b)
+
+    def __rtruediv__(self, o):
+        return self._bin(o, lambda a, b: b / a)
+
+    __array_ufunc__ = None
+
+    def sqrt(self):
+        return self._un(lambda a: R(a).sqrt())
+
+    def filled(self, fill_value=None):
+        fv = self.fill_value if fill_value is None else fill_value
+        out = _np.empty(self.data.shape, dtype=object)
+        for i in _np.ndindex(self.data.shape):
+            out[i] = _wrap_cell(fv) if self.mask[i] else self.data[i]
+        return out.view(SArr)
+
+
+class MaProxy:
+    @staticmethod
+    def masked_where(condition, a):
+        if not (has_sym(condition) or has_sym(a)):
+            return _real_np.ma.masked_where(condition, a)
+        cond = _np.asarray(_plain(sarr(condition, copy=False)), dtype=object)
+        mask = _np.empty(cond.shape, dtype=bool)
+        for i in _np.ndindex(cond.shape):
+            mask[i] = bool(cond[i])  # fork: the mask of a masked array is concrete
+        return SymMasked(a, mask)
+
+    def __getattr__(self, name):
+        return getattr(_real_np.ma, name)
